@@ -22,7 +22,8 @@ func tierSizes(tier string, q, t sizes) sizes {
 		// per round (the thorough tier runs several rounds with different seeds, see cmdCheck)
 		return sizes{t.tiny*2/5 + 1, t.block*2/5 + 1, t.chunk*2/5 + 1}
 	}
-	return q
+	// quick: the sizes written at the call sites are tripled for the small class (seconds, not minutes)
+	return sizes{q.tiny * 3, q.block + 1, q.chunk}
 }
 
 func blockMode(r *Rng) (uint32, string) {
